@@ -16,6 +16,12 @@ CLAIMED = {
              note='A-PY, A-ORACLE; bounded: translate_update_expression'),
  'C06': dict(cat='proof', ref='5/C06', text='store-permission obligations (no store into a source row or an offered record) and frame clauses on every verified function; list sources additionally checked boundedly end to end',
              note='A-PY, A-DEP for pandas/sqlite/CSV files'),
+ 'C10': dict(cat='proof', ref='5/C10', text='field extraction and quoted-line splitting are proved against the character-level dialect spec (shared with C11); the write-then-read round trip, the lossy-output warnings and latin-1 byte preservation are checked by a bounded stand-in over dialect-critical tables (labelled bounded); multi-character delimiters: see known findings',
+             note='A-RE-field (anchored field regexes end at the scanner end; validated exhaustively to length 7/9), A-PY string model, codecs (A-IO); round trip itself is bounded, not proved'),
+ 'C11': dict(cat='proof', ref='5/C11', text='extract_next_field and split_quoted_str are proved, for every line and single-character delimiter, to produce exactly the fields, next index and warning flag of the dialect spec (quoted iff quoted form followed by delimiter/EOL; other fields extend to the next delimiter; warning iff an unquoted field contains a quote); the scanner formulation of the spec is validated against the declarative sentence exhaustively to length 7/9 (bounded)',
+             note='A-RE-field assumed contract of the two field regexes (bounded validation), A-PY string model; fast path (no quote) proved equal to plain split, its agreement with the dialect is bounded; whitespace policy regex: bounded'),
+ 'C17': dict(cat='proof', ref='5/C17', text='like_to_regex is proved for every pattern to produce ^ tok(c1)..tok(cn) $ (loop invariant + per-character map of re.escape), and LIKE() is proved to return the match of exactly that regex with a cache that cannot mix patterns; that the token regex implements SQL LIKE in Python re is an assumption validated exhaustively (patterns <=3/4, texts <=2/3 over the 14-character alphabet)',
+             note='A-RE-escape (re.escape is a per-character map), A-RE (Python re semantics of the token regex): bounded validation only'),
 }
 
 NA = {}
